@@ -155,6 +155,8 @@ def _anc13(n):
 
 
 def run(ctx: Ctx) -> None:
+    from ..rules import placement as _placement
+    _placement.rule_noise_placement(ctx)
     rule_unwrap_source(ctx)
     rule_noise_preserved(ctx)
     from .c12 import rule_nodekeys
